@@ -394,6 +394,8 @@ def generate(rnd, tier, scale):
         if op == "pow":
             kind = rnd.choice(["int", "int", "neg"])
         if op in UN or op in ("is_even", "is_odd"):
+            if op != "invert" and rnd.random() < 0.15:
+                kind = "dec"  # decimal.Decimal outcomes (another exact numeric type)
             yield dict(op=op, l=_rand_opd(rnd, kind, allow_scalar=False), r=None)
             continue
         l = _rand_opd(rnd, kind, allow_scalar=op in BIN)
